@@ -42,7 +42,7 @@ def object_to_boolean(series: pd.Series, state: dict) -> pd.Series:
     if series.hasnans:
         # astype("boolean") understands None / NaN / NA only, and only genuine bools: the guard also
         # accepts values that are equal to True / False (1, 0.0, Decimal(1) ...), as astype(bool) does below
-        values = series.mask(series.isna(), pandas_na_value)
+        values = series.astype(object).mask(series.isna(), pandas_na_value)
         values = values.map(lambda v: v if v is pandas_na_value else bool(v))
         return values.astype(hasnan_bool_name)
     return series.astype(bool)
